@@ -362,6 +362,16 @@ def one_case(ctx, index, rng: random.Random):
                 a.axis_names = tuple(rng.choice([f"my_{i}", f"coordinate {i}", "x" * (i + 1)]) for i in range(a.ndim))
             relabelled = True
             desc = {**desc, "axis_names": list(a.axis_names)}
+        # all coordinates kept (in any order given): the same special type again - it still books Cartesian points like its parent
+        try:
+            with warnings.catch_warnings():
+                warnings.simplefilter("ignore")
+                allp = a.projection(*(list(range(a.ndim)) if rng.random() < 0.5 else list(a.axis_names)))
+            if type(allp).__name__ != type(a).__name__:
+                rec.fail(monitor="C15.projection", op=f"{kind}.projection(all axes)", symptom="projection does not have the matching special type", diff=["class"],
+                         detail={**desc, "got": type(allp).__name__, "expected": type(a).__name__})
+        except Exception as e:
+            rec.fail(monitor="C15.projection", op=f"{kind}.projection(all axes)", symptom=f"projection raised {type(e).__name__}", diff=["raised"], detail={**desc, "error": str(e)[:160]})
         for axes, cname in cmap.items():
             given = [a.axis_names[i] if rng.random() < 0.5 else i for i in axes]
             if rng.random() < 0.5:
@@ -479,7 +489,37 @@ def detached_case(ctx, index, rng: random.Random):
     structure.detached_workload(ctx, index, rng, prop="C15", monitor="C15.paths", inspect=inspect, kinds=("cylindrical", "polar", "spherical"))
 
 
+def alias_case(ctx, index, rng: random.Random):
+    """The (deprecated) *_histogram aliases of the facade functions build what the functions they stand for build."""
+    from physt import special_histograms as sp
+
+    rec = ctx.rec
+    rec.mon("C15.paths")
+    name = rng.choice(["radial", "azimuthal", "polar", "spherical", "spherical_surface", "cylindrical", "cylindrical_surface"])
+    dim = 2 if name in ("polar", "azimuthal") or (name == "radial" and rng.random() < 0.5) else 3
+    pts = np.array([[rng.uniform(-2, 2) for _ in range(dim)] for _ in range(rng.randint(2, 12))])
+    try:
+        with warnings.catch_warnings():
+            warnings.simplefilter("ignore")
+            args = tuple(pts[:, i] for i in range(dim)) if name in ("polar", "azimuthal", "radial") else (pts,)
+            try:
+                want = getattr(sp, name)(*args)
+            except Exception:
+                rec.skip("C15.paths", "alias_reference_refused")
+                return
+            got = getattr(sp, name + "_histogram")(*args)
+    except Exception as e:
+        rec.fail(monitor="C15.paths", op=f"{name}_histogram", symptom=f"the alias of a facade function refused what the function takes: {type(e).__name__}", diff=["raised"], detail={"error": str(e)[:160]})
+        return
+    with attach.quiet():
+        if type(got) is not type(want) or snap.diff(snap.snapshot(got), snap.snapshot(want)):
+            rec.fail(monitor="C15.paths", op=f"{name}_histogram", symptom="the alias of a facade function builds another histogram than the function", diff=["class"],
+                     detail={"got": type(got).__name__, "expected": type(want).__name__})
+    rec.case(["alias", name, pts.tolist()], True, cls=f"alias/{name}")
+
+
 def run(ctx):
+    ctx.run_cases(ctx.scale(21, 70), alias_case, salt="alias")
     ctx.run_cases(ctx.scale(60, 400), detached_case, salt="detached")
     ctx.run_cases(ctx.scale(400, 3000), one_case, salt="paths")
     ctx.run_cases(ctx.scale(30, 150), cylsurf_case, salt="cylsurf")
